@@ -249,6 +249,7 @@ impl Iommu {
 impl Aml for Iommu {
     fn to_aml_bytes(&self, sink: &mut dyn AmlSink) {
         // Type
+        assert!(self.len() <= u16::MAX as usize);
         sink.byte(RimtDeviceType::Iommu as u8);
         // Revision
         sink.byte(1);
@@ -401,6 +402,7 @@ impl PcieRootComplex {
 impl Aml for PcieRootComplex {
     fn to_aml_bytes(&self, sink: &mut dyn AmlSink) {
         // Type
+        assert!(self.len() <= u16::MAX as usize);
         sink.byte(RimtDeviceType::PcieRootComplex as u8);
         // Revision
         sink.byte(1);
@@ -463,6 +465,7 @@ impl Platform {
 impl Aml for Platform {
     fn to_aml_bytes(&self, sink: &mut dyn AmlSink) {
         // Type
+        assert!(self.len() <= u16::MAX as usize);
         sink.byte(RimtDeviceType::Platform as u8);
         // Revision
         sink.byte(1);
